@@ -341,13 +341,81 @@ def ecdsaSigHash (S : Bytes → Bytes) (p : PsbtIn) (tx : Tx) (i : Int) (ht : Op
   | none => throw .value
   | some d => pure d
 
-/-- `_taproot_sig_hash` (`hash_type or DEFAULT`: an explicit 0 and an absent type are the same) -/
+/-- the hash type `_taproot_sig_hash` settles on (`hash_type or DEFAULT`: an explicit 0 and an absent type are the same) -/
+def taprootType (sigHashType ht : Option Int) : Int :=
+  match ht with
+  | some h => h
+  | none => match sigHashType with | some h => h | none => (Gen.SigHash.DEFAULT : Int)
+
 def taprootSigHash (S : Bytes → Bytes) (sigHashType : Option Int) (tx : Tx) (i : Int) (spent : List TxOut)
     (leafHash : Bytes) (ht : Option Int) (pre : Option Precomputed) : R Bytes :=
-  let ht := match ht with
-    | some h => h
-    | none => match sigHashType with | some h => h | none => (Gen.SigHash.DEFAULT : Int)
+  let ht := taprootType sigHashType ht
   let ext := if leafHash.isEmpty then [] else leafHash ++ Gen.SigHash.EXT_SUFFIX
   taproot S tx i spent ht (if ext.isEmpty then 0 else 1) [] ext pre
+
+/-! ### the PSBT maps: utxo lookup, input index, whole-psbt and streamed-view entry points -/
+
+/-- the fields of one PSBT input map the digests read: PSBT_IN_WITNESS_UTXO, the outputs of
+    PSBT_IN_NON_WITNESS_UTXO, the outpoint's index (`output_index`, a uint32 or absent), the two scripts and
+    PSBT_IN_SIGHASH_TYPE -/
+structure PsbtInput where
+  witnessUtxo : Option TxOut
+  nonWitnessUtxo : Option (List TxOut)
+  outputIndex : Option Nat
+  redeemScript : Bytes
+  witnessScript : Bytes
+  sigHashType : Option Int
+
+def PsbtInput.empty : PsbtInput := ⟨none, none, none, [], [], none⟩
+
+/-- `psbt._prev_out`: the witness utxo when there is one, else output `output_index or 0` of the previous
+    transaction when it has that many, else `None` -/
+def prevOutOf (p : PsbtInput) : Option TxOut :=
+  match p.witnessUtxo with
+  | some o => some o
+  | none =>
+    match p.nonWitnessUtxo with
+    | some outs => outs[p.outputIndex.getD 0]?
+    | none => none
+
+/-- what `_sig_hash_from_psbt_in` / `_ecdsa_sig_hash` read of the map -/
+def PsbtInput.view (p : PsbtInput) : PsbtIn :=
+  ⟨prevOutOf p, p.redeemScript, p.witnessScript, p.nonWitnessUtxo.isSome, p.sigHashType⟩
+
+/-- `psbt._assert_input_index` (= `psbt_view._assert_index`) for an `int` argument -/
+def assertInputIndex (n : Nat) (i : Int) : R Nat :=
+  if 0 ≤ i ∧ i < n then pure i.toNat else throw .value
+
+/-- `psbt.ecdsa_sig_hash` past `Psbt.assert_valid` (= `PsbtView.ecdsa_sig_hash`: the same `_ecdsa_sig_hash` on the
+    map read from the stream) -/
+def psbtEcdsaSigHash (S : Bytes → Bytes) (inputs : List PsbtInput) (tx : Tx) (i : Int) (ht : Option Int) : R Bytes := do
+  let n ← assertInputIndex inputs.length i
+  ecdsaSigHash S (inputs.getD n PsbtInput.empty).view tx i ht
+
+/-- `psbt._spent_outputs`: the output each input spends; an input carrying no utxo raises -/
+def spentOutputs : List PsbtInput → R (List TxOut)
+  | [] => pure []
+  | p :: ps =>
+    match prevOutOf p with
+    | none => throw .value
+    | some o => do
+      let r ← spentOutputs ps
+      pure (o :: r)
+
+/-- `psbt.taproot_sig_hash` (past `Psbt.assert_valid`): no precomputed hashes -/
+def psbtTaprootSigHash (S : Bytes → Bytes) (inputs : List PsbtInput) (tx : Tx) (i : Int) (leafHash : Bytes)
+    (ht : Option Int) : R Bytes := do
+  let n ← assertInputIndex inputs.length i
+  let spent ← spentOutputs inputs
+  taprootSigHash S (inputs.getD n PsbtInput.empty).sigHashType tx i spent leafHash ht none
+
+/-- `PsbtView.taproot_sig_hash`: the spent outputs read once, the `PrecomputedTxData` of the built transaction
+    and those outputs built once (`_precomputed`) and handed over -/
+def viewTaprootSigHash (S : Bytes → Bytes) (inputs : List PsbtInput) (tx : Tx) (i : Int) (leafHash : Bytes)
+    (ht : Option Int) : R Bytes := do
+  let n ← assertInputIndex inputs.length i
+  let spent ← spentOutputs inputs
+  let p ← precompute S tx spent
+  taprootSigHash S (inputs.getD n PsbtInput.empty).sigHashType tx i spent leafHash ht (some p)
 
 end Btc.Sighash.Impl
